@@ -540,6 +540,8 @@ class Probe:
                 return Opq("(%r as %s)" % (v, e["ty"]), ("cast", norm_ty(e["ty"]), v))
             if isinstance(v, int):
                 return v
+            if isinstance(v, tuple) and v and v[0] in ("enum", "fnref_path", "closure") and ("fn(" in norm_ty(e["ty"]) or norm_ty(e["ty"]) in self.f.types):
+                return v  # a constructor or function named as a function pointer (`TimeSpec::Second as TimeUnit`)
             raise NoEval("cast")
         if k == "index":
             base = self.ev(e["e"], env)
